@@ -1,0 +1,38 @@
+//go:build verif
+
+package transp
+
+import (
+	"github.com/paulsonkoly/chess-3/board"
+)
+
+// This file is only compiled with the `verif` build tag. It exposes private
+// helpers of the table to the verification harness in /verif and adds no
+// behaviour.
+
+// VerifMatch64 is the lane matching helper.
+func VerifMatch64(w uint64, key uint16) (int, bool) { return match64(w, partialKey(key)) }
+
+// VerifBucketIx is the bucket index of hash in t.
+func (t *Table) VerifBucketIx(hash board.Hash) int { return t.bucketIx(hash) }
+
+// VerifBuckets is the number of buckets of t.
+func (t *Table) VerifBuckets() int { return len(t.data) }
+
+// VerifDigest is an FNV-1a style digest over the full contents of t.
+func (t *Table) VerifDigest() uint64 {
+	h := uint64(14695981039346656037)
+	mix := func(v uint64) {
+		h ^= v
+		h *= 1099511628211
+	}
+	for i := range t.data {
+		b := &t.data[i]
+		mix(b.pKeys)
+		for j := range b.entries {
+			e := &b.entries[j]
+			mix(uint64(e.Move) | uint64(uint16(e.value))<<16 | uint64(e.packed)<<32 | uint64(e.gen)<<40)
+		}
+	}
+	return h
+}
